@@ -125,5 +125,15 @@ let handle opx args =
     let (_, prevs) = at_height (z_of_hex h) !chain in
     let r = difficulty256 p prevs in
     out_z r ^ (match r with Ok v when params_okb p && chain_okb prevs && not (Z.eqb (spec_difficulty p prevs) v) -> " SPEC-MISMATCH" | _ -> "")
+  (* window ops: answered from the truncated chain only (Rewards/WindowDefs.v) *)
+  | "diffw", [h] ->
+    let (_, prevs) = at_height (z_of_hex h) !chain in
+    out_z (difficulty_win256 p prevs)
+  | "payatw", [h] ->
+    let (b, prevs) = at_height (z_of_hex h) !chain in
+    let r = calc_payouts_win256 p b prevs in
+    out_map r ^ spec_check_payout p b (window p prevs) r
+  | "payw", [] ->
+    out_map (get_pop_payout_win256 p !chain)
   | _ -> failwith ("unknown op " ^ op)
 let () = main_loop handle
